@@ -40,7 +40,11 @@ def preload():
     cirqstub.self_check()
 
 
-def h_vqe_rdm(env, opts, patt, sum_spin, canary=False):
+def h_vqe_rdm(env, opts, patt, sum_spin, canary=False, trace_mode="ne"):
+    """trace_mode: 'ne' - the state conserves N (JW, closed shell): traces are N and N(N-1);  'state' - the traces equal <N> and
+    <N(N-1)> of the prepared state (word-by-word Trotterised open-shell UCCSD under BK leaves the N sector: the property only
+    demands integer traces 'whenever the state conserves it');  'skip' - scBK of such a state: N is not defined on the reduced
+    register, only the energy identity and the symmetries are checked"""
     opts = dict(opts)
     key = opts.pop("molecule_key")
     if key == "SYM2":
@@ -49,16 +53,29 @@ def h_vqe_rdm(env, opts, patt, sum_spin, canary=False):
         with alloc(env):
             molecule = symmol.molecule(2, 2, 0, const, h, eri, env.symbolic, frozen=None)
         opts["initial_var_params"] = [0.25, -0.5]
+    elif key == "SYM3T":
+        # 3 orbitals / 2 electrons / TRIPLET (restricted open-shell reference) with symbolic integrals
+        const, h, eri = sym_integrals(env, 3)
+        with alloc(env):
+            molecule = symmol.molecule(3, 2, 2, const, h, eri, env.symbolic, frozen=None)
+        opts["initial_var_params"] = "ones"      # the default ('mp2') would run PySCF on the placeholder geometry
     else:
         molecule = mol(key)
     opts["molecule"] = molecule
     try:
         with alloc(env):
             s = c08.make_solver(env, opts)
+        if patt is None:
+            k = s.ansatz.n_var_params
+            patt = ("ss" + "p" * k)[:k]
         th = vec(env, "th", patt)
         with sym_alloc(env):
             e = s.energy_estimation(th)
             r1, r2 = s.get_rdm(th, sum_spin=sum_spin)
+            if trace_mode == "state":
+                nq_ = s.ansatz.circuit.width
+                amps = c08.decode_amplitudes(c08.full_circuit_state(s, nq_), molecule.n_active_sos, opts.get("qubit_mapping", "jw"),
+                                             opts.get("up_then_down", False))
     finally:
         c02._restore()
     n_e = molecule.n_active_electrons
@@ -72,13 +89,23 @@ def h_vqe_rdm(env, opts, patt, sum_spin, canary=False):
     tr = R.C(0)
     for i in range(n):
         tr = tr + r1[i, i]
-    env.check_eq(tr, n_e, "trace of the 1-RDM == number of active electrons")
+    if trace_mode == "ne":
+        env.check_eq(tr, n_e, "trace of the 1-RDM == number of active electrons")
+        want2 = n_e * (n_e - 1)
+    elif trace_mode == "state":
+        n1, want2, tot = R.C(0), R.C(0), R.C(0)
+        for f, a in amps.items():
+            p = a * R.n_conj(a)
+            tot, n1, want2 = tot + p, n1 + sum(f) * p, want2 + sum(f) * (sum(f) - 1) * p
+        env.check_eq(tot, 1, "decoded determinants carry the whole norm")
+        env.check_eq(tr, n1, "trace of the 1-RDM == <N> of the prepared state")
     env.check_vec_eq([r1[i, j] for i in range(n) for j in range(n)], [R.n_conj(r1[j, i]) for i in range(n) for j in range(n)], "1-RDM Hermitian")
     tr2 = R.C(0)
     for i in range(n):
         for j in range(n):
             tr2 = tr2 + r2[i, i, j, j]
-    env.check_eq(tr2, n_e * (n_e - 1), "sum_ij G[i,i,j,j] == N(N-1)")
+    if trace_mode != "skip":
+        env.check_eq(tr2, want2, "sum_ij G[i,i,j,j] == N(N-1)" if trace_mode == "ne" else "sum_ij G[i,i,j,j] == <N(N-1)> of the prepared state")
     idx = list(itertools.product(range(n), repeat=4))
     env.check_vec_eq([r2[p, q, r, s] for p, q, r, s in idx], [R.n_conj(r2[q, p, s, r]) for p, q, r, s in idx], "2-RDM Hermitian: G[pqrs] == conj(G[qpsr])")
     env.check_vec_eq([r2[p, q, r, s] for p, q, r, s in idx], [r2[r, s, p, q] for p, q, r, s in idx], "2-RDM pair symmetry: G[pqrs] == G[rspq]")
@@ -144,14 +171,14 @@ def h_energy_convention(env, n_mos, ne, frozen):
     env.check_eq(e, textbook_energy(c0, h_act, eri_act, g1, g2, na), "energy_from_rdms == E0 + sum h g + 1/2 sum (pq|rs) G[pqrs]")
 
 
-def h_pad(env, n_mos, ne, frozen, canary=False):
+def h_pad(env, n_mos, ne, frozen, canary=False, spin=0):
     from tangelo.toolboxes.molecular_computation.rdms import pad_rdms_with_frozen_orbitals_restricted
     const, h, eri = sym_integrals(env, n_mos)
     restore = _takebak_patch(env)
     try:
         with alloc(env):
-            m_fr = symmol.molecule(n_mos, ne, 0, const, h, eri, env.symbolic, frozen=frozen)
-            m_full = symmol.molecule(n_mos, ne, 0, const, h, eri, env.symbolic, frozen=None)
+            m_fr = symmol.molecule(n_mos, ne, spin, const, h, eri, env.symbolic, frozen=frozen)
+            m_full = symmol.molecule(n_mos, ne, spin, const, h, eri, env.symbolic, frozen=None)
             na = len(m_fr.active_mos)
             g1, g2 = sym_rdms(env, na)
             a1, a2 = arr(env, g1), arr(env, g2)
@@ -273,6 +300,11 @@ def shapes(tier, seed):
             out.append(Shape(f"vqe_rdm/sym2/{mp}/utd={int(utd)}/sumspin={int(ss)}", h_vqe_rdm,
                              dict(opts=dict(molecule_key="SYM2", qubit_mapping=mp, up_then_down=utd, ansatz=BuiltInAnsatze.UCCSD), patt="ss", sum_spin=ss),
                              modules=MODS, max_paths=32))
+    for mp, utd in (("scbk", True), ("jw", False)) + ((("scbk", False), ("bk", True), ("bk", False), ("jw", True)) if tier == "thorough" else ()):
+        tm = "skip" if mp == "scbk" else ("state" if mp == "bk" else "ne")
+        out.append(Shape(f"vqe_rdm/sym3-triplet/{mp}/utd={int(utd)}", h_vqe_rdm,
+                         dict(opts=dict(molecule_key="SYM3T", qubit_mapping=mp, up_then_down=utd, ansatz=BuiltInAnsatze.UCCSD), patt=None, sum_spin=True,
+                              trace_mode=tm), modules=MODS, max_paths=32))
     out.append(Shape("vqe_rdm/sym2/jw/refstate-override", h_vqe_rdm,
                      dict(opts=dict(molecule_key="SYM2", qubit_mapping="jw", up_then_down=False, ansatz=BuiltInAnsatze.UCCSD, ref_state=[1, 0, 0, 1]),
                           patt="ss", sum_spin=True), modules=MODS, max_paths=32))
@@ -290,6 +322,12 @@ def shapes(tier, seed):
     for (n, ne, fr) in pads:
         try_name = f"pad/n{n}e{ne}/{fr}"
         out.append(Shape(try_name, h_pad, dict(n_mos=n, ne=ne, frozen=fr), modules=MODS, max_paths=8))
+    # restricted OPEN-shell references (singly occupied orbitals)
+    opads = [(4, 4, 2, [0]), (3, 2, 2, [2]), (4, 3, 1, [0, 3])]
+    if tier == "thorough":
+        opads += [(4, 4, 2, [0, 3]), (4, 5, 1, [0]), (4, 2, 2, [3])]
+    for (n, ne, sp, fr) in opads:
+        out.append(Shape(f"pad/rohf/n{n}e{ne}s{sp}/{fr}", h_pad, dict(n_mos=n, ne=ne, frozen=fr, spin=sp), modules=MODS, max_paths=8))
     upads = [(3, 3, 1, [[0], []]), (3, 4, 0, [[0], [0, 2]]), (3, 3, 1, [[0, 2], [0]])]
     if tier == "thorough":
         upads += [(3, 4, 0, [[], [1]]), (3, 5, 1, [[0, 1], [0]]), (3, 2, 0, [[2], []]), (3, 3, 1, [[1], [2]])]
